@@ -65,6 +65,7 @@ type args struct {
 	T    int    `json:"t"`
 	A    int    `json:"a"`
 	K    int    `json:"k"`
+	Fm   int    `json:"fm"` // fault mode of k: 0 = the call returns an error, 1 = a lookup answers "not found"
 	ID   int    `json:"id"`
 	D    int    `json:"d"`
 	Num  int    `json:"num"`
@@ -333,10 +334,16 @@ func (r *run) step(s drv.Step) (res string, extra map[string]any) {
 	extra = map[string]any{"fired": false, "id": 0, "calls": 0, "known": false}
 	msg := func(f func(ctx sdk.Context) error, k int) string {
 		flt := e.Arm(k)
+		if a.Fm == 1 {
+			flt = e.ArmMiss(k)
+		}
 		err, _ := env.RunMsg(r.ctx, f)
 		e.Disarm()
 		extra["fired"] = flt.Fired != ""
 		extra["calls"] = flt.Calls
+		if len(flt.Lookups) > 0 {
+			extra["lookups"] = flt.Lookups
+		}
 		if err != nil {
 			extra["err"] = err.Error()
 			return "fail"
@@ -435,6 +442,9 @@ func (r *run) step(s drv.Step) (res string, extra map[string]any) {
 		}
 	case "EndBlock":
 		flt := e.Arm(a.K)
+		if a.Fm == 1 {
+			flt = e.ArmMiss(a.K)
+		}
 		func() {
 			defer func() {
 				if rec := recover(); rec != nil {
@@ -446,6 +456,9 @@ func (r *run) step(s drv.Step) (res string, extra map[string]any) {
 		e.Disarm()
 		extra["fired"] = flt.Fired != ""
 		extra["calls"] = flt.Calls
+		if len(flt.Lookups) > 0 {
+			extra["lookups"] = flt.Lookups
+		}
 		if flt.Fired != "" {
 			extra["firedAt"] = flt.Fired
 		}
